@@ -126,22 +126,7 @@ def run(project, chk):
     transform(ret, lambda n: (labels.add(n[1]) or n) if n[0] == "str" and n[1] in EXPECTED else n)
     if not chk.findings:
         chk.floor("format labels returned by detect_color_format", len(labels), 9)
-    fi = project.func(f"{PAR}.format_color")
-    chk.saw_function(fi)
-    try:
-        ex, env, ret = extract_function(project, fi)
-    except Unsupported as e:
-        raise AnalysisError(f"ANALYSIS-INCONCLUSIVE {fi.short}: {e}")
-    loc = project.loc(fi.module, fi.node)
-    for lab in sorted(labels | set(EXPECTED)):
-        r = transform(ret, lambda n, lab=lab: ("str", lab) if n == ("var", "format_type") else n)
-        want = EXPECTED.get(lab, f"{CONV}.rgb_to_hex")
-        if want is None:
-            ok = r == ("var", "rgb")
-        else:
-            ok = r[0] == "call" and r[1] == want and r[2] == (("var", "rgb"),)
-        chk.check(ok, "O1", fi.short, f"format_type == {lab!r}", loc, f"format {lab!r} -> {(want or 'the tuple itself').rsplit('.', 1)[-1]}", how=f"partial evaluation gives {show(r)[:60]}",
-                  message=f"format {lab!r} is rendered by {show(r)[:80]} instead of {(want or 'returning the tuple').rsplit('.', 1)[-1]}")
+    format_dispatch(project, chk, "O1", labels)
 
     # ---------------------------------------------------------------- O2
     fi = project.func(f"{COLORS}.ColorPair.make_readable")
@@ -213,6 +198,30 @@ def run(project, chk):
                           message="_format is written from something other than detect_color_format(self.original)")
 
     emitted_fields(project, chk)
+    chk.rule("O5", "the library's own reader of hsl() fields is CSS's: a percentage is divided by 100 whatever its size (0.4% is 0.004), a bare number only in [0, 1] (C07's N5, here as the discharged assumption of 'reads back')")
+    from checks.C07 import hsl_fields_read_as_css
+    hsl_fields_read_as_css(project, chk, "O5")
+
+
+def format_dispatch(project, chk, rule="O1", labels=()):
+    """format_color hands every format label to its emitter (and nothing in between re-writes the emitted text)."""
+    fi = project.func(f"{PAR}.format_color")
+    chk.saw_function(fi)
+    try:
+        ex, env, ret = extract_function(project, fi)
+    except Unsupported as e:
+        raise AnalysisError(f"ANALYSIS-INCONCLUSIVE {fi.short}: {e}")
+    loc = project.loc(fi.module, fi.node)
+    for lab in sorted(set(labels) | set(EXPECTED)):
+        r = transform(ret, lambda n, lab=lab: ("str", lab) if n == ("var", "format_type") else n)
+        want = EXPECTED.get(lab, f"{CONV}.rgb_to_hex")
+        if want is None:
+            ok = r == ("var", "rgb")
+        else:
+            ok = r[0] == "call" and r[1] == want and r[2] == (("var", "rgb"),)
+        chk.check(ok, rule, fi.short, f"format_type == {lab!r}", loc, f"format {lab!r} -> {(want or 'the tuple itself').rsplit('.', 1)[-1]}", how=f"partial evaluation gives {show(r)[:60]}",
+                  message=f"format {lab!r} is rendered by {show(r)[:80]} instead of {(want or 'returning the tuple').rsplit('.', 1)[-1]}")
+
 
 
 def emitted_fields(project, chk, R3="O3", R4="O4"):
